@@ -2,9 +2,14 @@
 
 correspondence : standard_aggregation / naive_aggregation kernels (rebuilt from the working tree) vs
                  both Lean definitions (array model Model/KGraph.lean and the proof-side model the
-                 theorems are stated about), exact.
+                 theorems are stated about), exact; pairwise_aggregation kernel vs the executable
+                 model `ExtPw.pairwise` (op `ext_pairwise`, the definition the refinement theorem is
+                 about) on weighted patterns (ties, isolated nodes, nonsymmetric / unsorted /
+                 duplicate entries, explicit zeros) and on every kernel call the public wrapper
+                 makes (recorded), exact on x, y[:k], k.
 search         : public routines of pyamg/aggregation/aggregate.py (standard, naive, pairwise with
-                 1..3 matchings, Lloyd, balanced Lloyd) judged by the partition specification.
+                 1..3 matchings, Lloyd, balanced Lloyd) judged by the partition specification; the
+                 pairwise wrapper's T and Cpts must be the composition of its recorded matchings.
 """
 import hashlib
 
@@ -13,14 +18,16 @@ import scipy.sparse as sp
 from scipy.sparse import csgraph
 
 import gen
-from common import enc_ints
+from common import enc_ints, enc_rats
 
 META = {
     'rule': 'graphs: every labelled graph on <= 4 (quick) / <= 6 (thorough) vertices with and without self loops, plus seeded '
             'structured random graphs up to n = 60 (paths, stars, cycles, cliques, isolated pairs, grids, two components); '
             'non-trivial = the graph has an edge; distinct = distinct (routine, graph, parameters)',
-    'search_only': ['pairwise kernel and wrapper, Lloyd / balanced Lloyd: specification checkers on the real outputs; the Lean '
-                    'theorem for pairwise is about the transition system (any selection order), not an executable kernel model'],
+    'search_only': ['Lloyd / balanced Lloyd: specification checkers on the real outputs',
+                    'pairwise wrapper: strength matrices and Galerkin products between matchings are not modelled; every kernel '
+                    'call the wrapper makes is compared with the Lean kernel model, and T / Cpts with the composition of the '
+                    'recorded assignment maps (the object of pairwise_matchings_fiber)'],
     'partial': ['lloyd: only "every node that reaches a centre is assigned" is checked'],
     'assumptions': [],
 }
@@ -79,6 +86,140 @@ def part_a(ctx, graphs):
             ctx.corr('kernel ' + what, {'line': line}, o, out)
 
 
+def pairwise_spec_error(n, x, y, k):
+    """independent statement of the matching-type aggregation spec on a raw kernel output"""
+    x = [int(v) for v in x]
+    y = [int(v) for v in y]
+    if k < 0 or k > n or len(y) < k:
+        return f'k = {k} aggregates for {n} nodes'
+    if any(not (1 <= v <= k) for v in x):
+        return f'node {next(i for i, v in enumerate(x) if not (1 <= v <= k))} has id outside 1..{k}'
+    for a in range(1, k + 1):
+        mem = [i for i, v in enumerate(x) if v == a]
+        if not (1 <= len(mem) <= 2):
+            return f'aggregate {a} has {len(mem)} nodes'
+        if not (0 <= y[a - 1] < n) or x[y[a - 1]] != a:
+            return f'root {y[a - 1]} is not in aggregate {a}'
+    return None
+
+
+def weighted_patterns(rng, M, t):
+    """CSR triples (ap, aj, ax) on the graph M: symmetric / nonsymmetric weights and patterns, ties,
+    explicit zeros and negative weights, unsorted rows with duplicate entries"""
+    M = np.array(M)
+    n = M.shape[0]
+    pat = M != 0
+    mode = t % 6
+    if mode == 0:       # unit weights: every comparison is a tie
+        W = np.ones((n, n))
+    elif mode == 1:     # symmetric small weights (many ties)
+        W = rng.choice([0.5, 1.0, 1.0, 2.0, 3.0], size=(n, n))
+        W = np.triu(W) + np.triu(W, 1).T
+    elif mode == 2:     # nonsymmetric weights incl. zero and negative values
+        W = rng.choice([-2.0, -1.0, -0.5, 0.0, 0.25, 1.0, 1.0, 3.0], size=(n, n))
+    elif mode == 3:     # nonsymmetric pattern: drop entries
+        W = rng.choice([1.0, 2.0], size=(n, n))
+        pat = pat & (rng.random((n, n)) < 0.7)
+    elif mode == 4:     # generic floats (exact dyadic rationals on the Lean side)
+        W = rng.standard_normal((n, n))
+    else:               # rows of isolated nodes emptied (their columns stay: nonsymmetric)
+        W = rng.choice([1.0, 1.0, 4.0], size=(n, n))
+        pat = pat & ~(rng.random(n) < 0.3)[:, None]
+    ap, aj, ax = [0], [], []
+    for i in range(n):
+        cols = [int(c) for c in np.nonzero(pat[i])[0]]
+        if t % 5 == 3 and n:
+            cols += [int(c) for c in rng.integers(0, n, size=int(rng.integers(0, 3)))]
+            rng.shuffle(cols)
+        for c in cols:
+            aj.append(c)
+            ax.append(float(W[i, c]))
+        ap.append(len(aj))
+    return (np.array(ap, dtype=np.int32), np.array(aj, dtype=np.int32), np.array(ax, dtype=np.float64),
+            ('unit', 'symw', 'nonsymw', 'nonsympat', 'float', 'emptyrows')[mode] + ('+dup' if t % 5 == 3 else ''))
+
+
+def compare_pairwise_calls(ctx, calls):
+    """calls: (n, ap, aj, ax, x, y, k, origin) of the REAL kernel; compare with the Lean kernel model"""
+    lines = [f'ext_pairwise {n} {enc_ints(ap)} {enc_ints(aj)} {enc_rats(ax)}' for (n, ap, aj, ax, x, y, k, o) in calls]
+    outs = ctx.lean(lines) if lines else []
+    for (n, ap, aj, ax, x, y, k, origin), line, o in zip(calls, lines, outs):
+        impl = enc_ints(x) + ';' + enc_ints(y[:max(k, 0)]) + ';' + str(k)
+        offd = bool((np.repeat(np.arange(n), np.diff(ap)) != aj).any()) if n else False
+        ctx.case(key=_key(line), nontrivial=offd, sample={'request': line[:200], 'model': o[:100], 'impl': impl[:100]})
+        ctx.feat('kernel:pairwise:' + origin)
+        if o != impl:
+            case = {'n': n, 'ap': [int(v) for v in ap], 'aj': [int(v) for v in aj], 'ax': [float(v) for v in ax],
+                    'routine': 'pairwise_kernel'}
+            ctx.corr('kernel pairwise (' + origin + ')', case, o, impl)
+            e = pairwise_spec_error(n, x, y, k)
+            if e:
+                ctx.violation(f'pairwise_aggregation kernel: {e}', case)
+
+
+def part_c(ctx, graphs):
+    """raw pairwise kernel vs `ext_pairwise`"""
+    from pyamg import amg_core
+    rng = ctx.np_rng
+    calls = []
+    for t, (M, kind) in enumerate(graphs):
+        n = np.array(M).shape[0]
+        for r in range(2):
+            ap, aj, ax, wk = weighted_patterns(rng, M, 2 * t + r)
+            x = np.full(n, -77, dtype=np.int32)
+            y = np.full(n, -7, dtype=np.int32)
+            k = amg_core.pairwise_aggregation(n, ap, aj, ax, x, y)
+            ctx.feat('weights:' + wk)
+            calls.append((n, ap, aj, ax, x, y, int(k), 'raw'))
+    compare_pairwise_calls(ctx, calls)
+
+
+class _PairwiseSpy:
+    """records every kernel call made by pyamg.aggregation.aggregate.pairwise_aggregation"""
+
+    def __init__(self, AG):
+        self.AG, self.calls = AG, []
+
+    def __enter__(self):
+        self.orig = self.AG.amg_core.pairwise_aggregation
+        spy = self
+
+        def rec(n, ap, aj, ax, x, y):
+            k = spy.orig(n, ap, aj, ax, x, y)
+            spy.calls.append((int(n), np.array(ap), np.array(aj), np.array(ax, dtype=np.float64),
+                              np.array(x), np.array(y), int(k), 'wrapper'))
+            return k
+        self.AG.amg_core.pairwise_aggregation = rec
+        return self
+
+    def __exit__(self, *a):
+        self.AG.amg_core.pairwise_aggregation = self.orig
+        return False
+
+
+def composition_error(calls, T, roots, n):
+    """T and Cpts of the wrapper = composition of the recorded assignment maps x-1 / roots"""
+    if not calls:
+        return 'the wrapper made no kernel call'
+    F = np.arange(n)
+    R = None
+    for (m, ap, aj, ax, x, y, k, _o) in calls:
+        if k == 0:
+            return None     # degenerate n = 0 level: nothing to compose
+        if F.size and F.max() >= m:
+            return f'matching on {m} nodes follows a level with {int(F.max()) + 1} aggregates'
+        F = (x.astype(int) - 1)[F]
+        R = y[:k].astype(int) if R is None else R[y[:k].astype(int)]
+    D = sp.csr_array(T).toarray()
+    E = np.zeros((n, calls[-1][6]), dtype=int)
+    E[np.arange(n), F] = 1
+    if D.shape != E.shape or (D != E).any():
+        return 'T is not the composition of the matchings computed by the kernel'
+    if [int(r) for r in roots] != [int(r) for r in R]:
+        return 'Cpts is not the composition of the roots computed by the kernel'
+    return None
+
+
 def check_aggop(AggOp, roots, n, name):
     """common contract: 0/1 matrix, <= 1 aggregate per node, no empty aggregate, distinct roots inside"""
     A = sp.csr_array(AggOp)
@@ -106,6 +247,7 @@ def check_aggop(AggOp, roots, n, name):
 def part_b(ctx, graphs):
     from pyamg.aggregation import aggregate as AG
     rng = ctx.np_rng
+    wrapper_calls = []
     for t, (M, kind) in enumerate(graphs):
         M = np.array(M)
         n = M.shape[0]
@@ -172,7 +314,9 @@ def part_b(ctx, graphs):
             norm = str(rng.choice(['min', 'abs']))
             reg('pairwise', matchings=matchings, theta=theta, norm=norm)
             try:
-                T, roots = AG.pairwise_aggregation(Acsr, matchings=matchings, theta=theta, norm=norm)
+                with _PairwiseSpy(AG) as spy:
+                    T, roots = AG.pairwise_aggregation(Acsr, matchings=matchings, theta=theta, norm=norm)
+                wrapper_calls.extend(spy.calls)
                 e = check_aggop(T, roots, n, 'pairwise')
                 if not e:
                     D = sp.csr_array(T).toarray()
@@ -183,6 +327,14 @@ def part_b(ctx, graphs):
                 if e:
                     viol(f'pairwise_aggregation(matchings={matchings}, theta={theta}, norm={norm}): {e}',
                          routine='pairwise', A=A.tolist(), matchings=matchings, theta=theta, norm=norm)
+                else:
+                    # the partition itself was judged above; this ties T / Cpts to the composed assignment maps
+                    ce = composition_error(spy.calls, T, roots, n)
+                    ctx.feat(f'pairwise_levels:{len(spy.calls)}')
+                    if ce:
+                        ctx.corr('pairwise wrapper composition', {**case0, 'A': A.tolist(), 'matchings': matchings,
+                                                                  'theta': theta, 'norm': norm},
+                                 'composition of the recorded matchings', ce)
             except Exception as ex:
                 viol(f'pairwise_aggregation raised {type(ex).__name__}: {ex}', routine='pairwise', A=A.tolist(),
                      matchings=matchings, theta=theta, norm=norm)
@@ -225,22 +377,40 @@ def part_b(ctx, graphs):
                         viol(f'{nm}_aggregation({kw}) raised {type(ex).__name__}: {ex}', routine=nm, W=W.tolist(), **kw)
                 except Exception as ex:
                     viol(f'{nm}_aggregation({kw}) raised {type(ex).__name__}: {ex}', routine=nm, W=W.tolist(), **kw)
+    compare_pairwise_calls(ctx, wrapper_calls)
 
 
 def run(ctx):
     if ctx.quick:
         part_a(ctx, list(graph_stream(ctx, 4, 300, 40)))
         part_b(ctx, list(graph_stream(ctx, 4, 200, 30)))
+        part_c(ctx, list(graph_stream(ctx, 4, 300, 40)))     # last: leaves the random streams of parts a, b unchanged
     else:
         part_a(ctx, list(graph_stream(ctx, 6, 5000, 60)))
         part_b(ctx, list(graph_stream(ctx, 5, 3000, 60)))
+        part_c(ctx, list(graph_stream(ctx, 5, 5000, 60)))
 
 
 def search(ctx):
     part_b(ctx, list(graph_stream(ctx, 5, 1500, 40)))
+    part_c(ctx, list(graph_stream(ctx, 5, 1500, 40)))
 
 
 def replay(ctx, data):
+    c = data['case']
+    if c.get('routine') == 'pairwise_kernel':
+        from pyamg import amg_core
+        n = int(c['n'])
+        ap, aj = np.array(c['ap'], dtype=np.int32), np.array(c['aj'], dtype=np.int32)
+        ax = np.array(c['ax'], dtype=np.float64)
+        x = np.full(n, -77, dtype=np.int32)
+        y = np.full(n, -7, dtype=np.int32)
+        k = amg_core.pairwise_aggregation(n, ap, aj, ax, x, y)
+        print('replaying pairwise kernel: x =', x.tolist(), 'y =', y[:k].tolist(), 'k =', k)
+        compare_pairwise_calls(ctx, [(n, ap, aj, ax, x, y, int(k), 'raw')])
+        for v in ctx.violations[:5]:
+            print('  ', v['what'])
+        return
     M = np.array(data['case']['M'])
     print('replaying on graph', M.tolist())
     for t in (0, 1, 2, 3):
